@@ -250,8 +250,5 @@ var Port = func(n1, n2 *RawNode) bool {
 // LastNodeError sorts nodes by their LastErr() status in increasing order. A
 // node with LastErr() != nil is larger than a node with LastErr() == nil.
 var LastNodeError = func(n1, n2 *RawNode) bool {
-	if n1.channel.lastErr() != nil && n2.channel.lastErr() == nil {
-		return false
-	}
-	return true
+	return n1.channel.lastErr() == nil && n2.channel.lastErr() != nil
 }
